@@ -22,7 +22,13 @@ QUANTUM = 1e-12          # residuals of constructor-level scales are reported in
 RCLIP = 10 ** 9
 
 # the physical problem (SI); the mesh is dimensionless and shared
-PHYS = dict(XI=0.8e-6, LAM=1.6e-6, D=1.0e-7, B=4.0e-4, I=3.0e-6)
+PHYS = dict(XI=0.8e-6, LAM=1.6e-6, D=1.0e-7, SIG=2.5e6, B=4.0e-4, I=3.0e-6)
+# literal SI values (CODATA 2018/2022; h and e are exact by definition of the SI): the ABSOLUTE reference of every scale.
+# Nothing here is read from tdgl / pint: a constant that is wrong inside the package must not cancel out of the comparison.
+H_PLANCK = 6.62607015e-34
+E_CHARGE = 1.602176634e-19
+PHI0_SI = H_PLANCK / (2 * E_CHARGE)           # 2.067833848...e-15 Wb
+MU0_SI = 1.25663706127e-6                     # N / A^2 (CODATA 2022; CODATA 2018 differs by 7e-10, inside the tolerance of 1e-9)
 FIELD_POINTS_UM = [[0.3, 0.2, 0.5], [-1.0, 0.7, 1.0], [2.0, -1.0, 0.4], [4.0, 3.0, 2.0], [0.0, 0.0, -0.8]]   # (x, y, z) off the film plane
 GEOM = dict(W=5.0, H=3.0, term=0.1, hole=(0.6, 0.2, 0.1), mel=0.8)      # in micrometres (the reference unit system)
 
@@ -31,12 +37,14 @@ def unit_names(u):
     return LEN[u[0]], FLD[u[1]], CUR[u[2]]
 
 
-def _build(tdgl, kind, s, length_units, probes=True):
+def _build(tdgl, kind, s, length_units, probes=True, wrong=None):
     """The device with every length multiplied by s (s = 1 um expressed in length_units)."""
     from tdgl.geometry import box, circle
 
     g = GEOM
-    layer = tdgl.Layer(coherence_length=PHYS["XI"] * 1e6 * s, london_lambda=PHYS["LAM"] * 1e6 * s, thickness=PHYS["D"] * 1e6 * s, gamma=10.0)
+    f = wrong or {}          # (history) factors by which the parameters are first stated WRONGLY, to be corrected in place later
+    layer = tdgl.Layer(coherence_length=PHYS["XI"] * 1e6 * s * f.get("xi", 1.0), london_lambda=PHYS["LAM"] * 1e6 * s * f.get("lam", 1.0),
+                       thickness=PHYS["D"] * 1e6 * s * f.get("d", 1.0), conductivity=PHYS["SIG"] * 1e-6 / s, gamma=10.0)
     W, H = g["W"] * s, g["H"] * s
     film = tdgl.Polygon("film", points=box(W, H, points=48))
     holes = []
@@ -70,17 +78,36 @@ def twin_device(tdgl, kind, u):
     return dev
 
 
+def edited_device(tdgl, kind, u, prior_solver=False):
+    """History: the device is first built with WRONG layer parameters, its scales are read (optionally a solver is constructed
+    on it), then the layer is corrected IN PLACE (attribute assignment, no new Layer object) and the shared dimensionless mesh
+    (which belongs to the correct xi) is assigned.  -> (device, scales seen before the edit)"""
+    base = base_device(tdgl, kind)
+    s = 10.0 ** (-6 - u[0])
+    # (with a prior solver the coherence length is stated correctly: the geometry is xi * mesh and must fit the terminals)
+    dev = _build(tdgl, kind, s, LEN[u[0]], wrong=dict(lam=0.8, d=2.0) if prior_solver else dict(xi=1.25, lam=0.8, d=2.0))
+    pre = {"K0": float(dev.K0.to_base_units().magnitude), "Bc2": float(dev.Bc2.to_base_units().magnitude), "A0": float(dev.A0.to("T * m").magnitude)}
+    if prior_solver:
+        dev.mesh = base.mesh
+        ln, fu, cu = unit_names(u)
+        tdgl.TDGLSolver(dev, tdgl.SolverOptions(solve_time=1.0, field_units=fu, current_units=cu), applied_vector_potential=numbers(u)["B"],
+                        terminal_currents={"source": numbers(u)["I"], "drain": -numbers(u)["I"]})
+    dev.layer.coherence_length = PHYS["XI"] * 1e6 * s
+    dev.layer.london_lambda = PHYS["LAM"] * 1e6 * s
+    dev.layer.thickness = PHYS["D"] * 1e6 * s
+    dev.mesh = base.mesh
+    return dev, pre
+
+
 def numbers(u):
     """What the user types for the physical problem in unit system u."""
     return dict(B=PHYS["B"] / 10.0 ** u[1], I=PHYS["I"] / 10.0 ** u[2])
 
 
 def constants(tdgl):
-    """Numeric values of the symbols of the model (the registry's constants are inputs, not under test)."""
-    from tdgl.em import ureg
+    """Numeric values of the symbols of the model: the requested physical parameters and LITERAL SI constants."""
     v = dict(PHYS)
-    v.update(ten=10.0, two=2.0, pi=math.pi, S=1.0, L=1.0, AR=1.0,
-             Phi0=ureg("Phi_0").to_base_units().magnitude, mu0=ureg("mu_0").to_base_units().magnitude)
+    v.update(ten=10.0, two=2.0, pi=math.pi, S=1.0, L=1.0, AR=1.0, Phi0=PHI0_SI, mu0=MU0_SI)
     return v
 
 
@@ -104,7 +131,11 @@ def observe_solver(tdgl, args, tmp):
 
     u = args["u"]
     ln, fu, cu = unit_names(u)
-    dev = twin_device(tdgl, args.get("kind", "bar"), u)
+    pre = None
+    if args.get("history") == "layer-edit":
+        dev, pre = edited_device(tdgl, args.get("kind", "bar"), u, prior_solver=args.get("prior_solver", False))
+    else:
+        dev = twin_device(tdgl, args.get("kind", "bar"), u)
     nums = numbers(u)
     opt = tdgl.SolverOptions(solve_time=1.0, field_units=fu, current_units=cu, include_screening=True,
                              output_file=os.path.join(tempfile.mkdtemp(dir=tmp), "o.h5"))
@@ -116,7 +147,12 @@ def observe_solver(tdgl, args, tmp):
         "CurScaled": float(solver.current_func(0.0)["source"]),
         "ScreenW": float(w.mean()), "ScreenW_spread": float(np.ptp(w) / abs(w.mean())),
         "K0": float(dev.K0.to_base_units().magnitude), "Bc2": float(dev.Bc2.to_base_units().magnitude),
+        "xi": float(dev.coherence_length.to("m").magnitude), "lambda": float(dev.london_lambda.to("m").magnitude),
+        "Lambda": float(dev.Lambda.to("m").magnitude), "A0": float(dev.A0.to("T * m").magnitude),
+        "tau0": float(dev.tau0().to("s").magnitude), "V0": float(dev.V0().to("V").magnitude),
     }
+    if pre is not None:
+        obs["pre_edit"] = pre
     # oriented sum of link exponents round each triangle, on solver.current_A_applied
     A = np.asarray(solver.current_A_applied)
     em = mesh.edge_mesh
@@ -178,7 +214,7 @@ def run_twin(tdgl, args, tmp):
     u = args["u"]
     ln, fu, cu = unit_names(u)
     kind = args.get("kind", "bar")
-    dev = twin_device(tdgl, kind, u)
+    dev = edited_device(tdgl, kind, u)[0] if args.get("layer_edit") else twin_device(tdgl, kind, u)
     nums = numbers(u)
     work = tempfile.mkdtemp(prefix="units", dir=tmp)
     opt = tdgl.SolverOptions(solve_time=args["solve_time"], dt_init=args["dt"], dt_max=args.get("dt_max", 0.1), adaptive=args.get("adaptive", False),
